@@ -103,6 +103,10 @@ def body(e, L, cfg):
             back = L.latter_map_to_accessor(lm, k)
             if gen.concrete_rows(back) != rows:
                 return fail("accessor -> latter map -> accessor differs")
+            # a latter map is a dict of lists: the order inside a list carries no meaning (column = successor mod 4)
+            back = L.latter_map_to_accessor({v: list(reversed([x for x in rows[v] if x >= 0])) for v in live}, k)
+            if gen.concrete_rows(back) != rows:
+                return fail("latter map with reordered successor lists converts to a different accessor")
             mx = L.accessor_to_adjacency_matrix(acc)
             exp_m = [[1 if v in [x for x in rows[u] if x >= 0] else 0 for v in range(N)] for u in range(N)]
             if gen.concrete_rows(mx) != exp_m:
@@ -124,14 +128,17 @@ def body(e, L, cfg):
                     lb = sorted(core.concrete_int(x) for x in (b.fix_len().elems() if hasattr(b, "fix_len") else list(b)))
                     if la != sorted(cur) or lb != sorted(cur):
                         return fail("leaf query root=%d depth=%d differs from the walk end points" % (root, d))
-            if illegal:
+            for u in range(N):           # one illegal arc in every row in turn (rows of every out-degree)
+                v = [x for x in range(N) if x not in [succ(u, j, k) for j in range(4)]][0]
                 bad = symnp.array(exp_m)
-                bad[illegal[0], illegal[1]] = 1
+                bad[u, v] = 1
+                cex["illegal"] = [u, v]
                 try:
                     L.adjacency_matrix_to_accessor(bad)
-                    return fail("illegal matrix entry accepted")
+                    return fail("illegal matrix entry %d -> %d accepted" % (u, v))
                 except ValueError:
                     pass
+            cex["illegal"] = illegal
         except core.Abort:
             raise
         except core.Inconclusive:
